@@ -354,7 +354,16 @@ pub fn gen_import(rng: &mut Rng, project_keys: &[String]) -> Vec<String> {
         // something INSIDE a project item (a nested name): not a key, whatever the project holds
         7 if !project_keys.is_empty() => {
             let mut v = split(rng.pick(project_keys).as_str());
-            v.push((*rng.pick(&["Inner", "Foo", "Stub"])).to_owned());
+            if rng.chance(1, 3) {
+                // `p.Name.Name`: the nested name repeats the last segment (once or twice)
+                let last = v[v.len() - 1].clone();
+                v.push(last.clone());
+                if rng.chance(1, 3) {
+                    v.push(last);
+                }
+            } else {
+                v.push((*rng.pick(&["Inner", "Foo", "Stub"])).to_owned());
+            }
             v
         }
         _ => {
@@ -418,6 +427,19 @@ pub fn gen_project(rng: &mut Rng, cfg: &DocCfg) -> Vec<(String, Doc)> {
         }
         // references: mostly names that relate to this file's imports / declarations
         let mut fpool = TypePool::default();
+        // now and then an import is replaced by one whose LAST SEGMENT merely ends with the name that is referenced
+        // (`pkg.Legacy_Config`, `pkg.A9Config`, `pkg.__Config` for `Config`): never a match, whatever precedes the name
+        if !imports.is_empty() && rng.chance(1, 6) {
+            let k = rng.below(imports.len());
+            let n = imports[k].len();
+            let last = imports[k][n - 1].clone();
+            imports[k][n - 1] = format!("{}{}", *rng.pick(&["Legacy_", "A9", "__", "x_", "My1_"]), last);
+            fpool.customs.push(vec![last.clone()]);
+            fpool.customs.push(vec![last.clone()]);
+            let mut q = imports[k][..n - 1].to_vec();
+            q.push(last);
+            fpool.customs.push(q);
+        }
         for imp in &imports {
             for k in 0..imp.len() {
                 fpool.customs.push(imp[k..].to_vec());
